@@ -1468,7 +1468,7 @@ fn structured_returns(stmts: &[Stmt], ret_is_option: bool) -> Option<Vec<Stmt>> 
     }
     Some(out)
 }
-pub fn inline_new_helpers(block: &mut syn::Block, helpers: &std::collections::BTreeMap<String, Helper>, cx: &mut Ctx) {
+pub fn inline_new_helpers(block: &mut syn::Block, helpers: &std::collections::BTreeMap<String, Helper>, self_by_value: bool, cx: &mut Ctx) {
     if helpers.is_empty() && !block.stmts.iter().any(|st| matches!(st, Stmt::Item(syn::Item::Fn(_)))) { return; }
     // which helper does this expression call (directly; `.await`ed for an async one)?
     fn turbofish(a: &syn::PathArguments) -> Vec<syn::Type> {
@@ -1498,8 +1498,17 @@ pub fn inline_new_helpers(block: &mut syn::Block, helpers: &std::collections::BT
             sig.inputs = parsed;
             return Some(Helper { sig, block: syn::parse2(blk).ok()?, receiver: h.receiver });
         }
-        if own.iter().any(|g| ts_mentions(h.block.to_token_stream(), g)) { return None; }
-        Some(Helper { sig: h.sig.clone(), block: h.block.clone(), receiver: h.receiver })
+        // (log lines are dropped anyway: what they name does not count)
+        let mut quiet = h.block.clone();
+        struct Q<'a>(&'a [String]);
+        impl<'a> VisitMut for Q<'a> { fn visit_block_mut(&mut self, b: &mut syn::Block) {
+            let own = self.0;
+            let names = |m: &syn::Macro| is_dropped_macro(m) && own.iter().any(|g| ts_mentions(m.tokens.clone(), g));
+            b.stmts.retain(|st| !matches!(st, Stmt::Macro(m) if names(&m.mac)) && !matches!(st, Stmt::Expr(Expr::Macro(m), _) if names(&m.mac)));
+            visit_mut::visit_block_mut(self, b); } }
+        Q(&own).visit_block_mut(&mut quiet);
+        if own.iter().any(|g| ts_mentions(quiet.to_token_stream(), g)) { return None; }
+        Some(Helper { sig: h.sig.clone(), block: quiet, receiver: h.receiver })
     }
     fn callee(e: &Expr, helpers: &std::collections::BTreeMap<String, Helper>) -> Option<(Helper, Vec<Expr>)> {
         let (inner, awaited) = match e { Expr::Await(a) => (&*a.base, true), other => (other, false) };
@@ -1549,13 +1558,14 @@ pub fn inline_new_helpers(block: &mut syn::Block, helpers: &std::collections::BT
         else if pats.len() == 1 { let p = &pats[0]; let a = &args[0]; parse_quote!({ let #p = #a; #(#stmts)* }) }
         else { parse_quote!({ let (#(#pats),*) = (#(#args),*); #(#stmts)* }) }
     }
-    // inside a closure or an async block a call `self.f(..)` makes the closure capture `self` as a whole, while the helper's statements
-    // written out would capture only the fields they name: there the call is left alone (what a closure owns is part of what is verified)
+    // inside a closure or an async block of a function that OWNS `self` (a by-value receiver) a call `self.f(..)` makes the closure capture
+    // `self` as a whole, while the helper's statements written out would capture only the fields they name: there the call is left alone
+    // (what a closure owns is part of what is verified). Where `self` is a reference, either way the closure holds references only.
     fn is_self_method(e: &Expr) -> bool {
         let inner = match e { Expr::Await(a) => &*a.base, Expr::Try(t) => match &*t.expr { Expr::Await(a) => &*a.base, o => o }, o => o };
         matches!(inner, Expr::MethodCall(m) if matches!(&*m.receiver, Expr::Path(p) if p.path.is_ident("self")))
     }
-    struct V<'a> { helpers: &'a std::collections::BTreeMap<String, Helper>, fired: usize, depth: usize, capturing: usize, h1r: usize }
+    struct V<'a> { helpers: &'a std::collections::BTreeMap<String, Helper>, fired: usize, depth: usize, capturing: usize, h1r: usize, owns_self: bool }
     impl<'a> VisitMut for V<'a> {
         fn visit_expr_mut(&mut self, e: &mut Expr) {
             let cap = matches!(e, Expr::Closure(_) | Expr::Async(_));
@@ -1563,7 +1573,7 @@ pub fn inline_new_helpers(block: &mut syn::Block, helpers: &std::collections::BT
             visit_mut::visit_expr_mut(self, e);
             if cap { self.capturing -= 1; }
             if self.depth > 3 { return; }
-            if self.capturing > 0 && is_self_method(e) { return; }
+            if self.owns_self && self.capturing > 0 && is_self_method(e) { return; }
             // `f(..)?`: an error the helper leaves with through a `?` of its own is the error this `?` passes on
             if let Expr::Try(t) = e { if let Some((mut h, args)) = callee(&t.expr, self.helpers) {
                 let (mut ret, _) = has_return_or_try(&h.block);
@@ -1613,7 +1623,7 @@ pub fn inline_new_helpers(block: &mut syn::Block, helpers: &std::collections::BT
         Some(Stmt::Expr(te, Some(_))) => { if let Some((h, args)) = callee(te, helpers) { if matches!(h.sig.output, syn::ReturnType::Default) { *te = build(&h, args); fired += 1; } } }
         _ => {}
     }
-    let mut v = V { helpers, fired: 0, depth: 0, capturing: 0, h1r: 0 };
+    let mut v = V { helpers, fired: 0, depth: 0, capturing: 0, h1r: 0, owns_self: self_by_value };
     v.visit_block_mut(block);
     for _ in 0..(fired + v.fired) { cx.fire("H1"); }
     for _ in 0..v.h1r { cx.fire("H1r"); }
